@@ -32,6 +32,10 @@ def stmt_regs(s):
         used = [s[1]]
         for b in s[2]: used += stmt_regs(b)[1]
         return None, used
+    if op == "itelazy":
+        used = [s[2], s[4], s[6]]
+        for b in s[3] + s[5]: used += stmt_regs(b)[1]
+        return s[1], used
     return None, []
 
 
@@ -77,6 +81,9 @@ def op_hist(cases):
             elif s[0] == "guarded":
                 h["guarded"] += 1
                 walk(s[2])
+            elif s[0] == "itelazy":
+                h["itelazy"] += 1
+                walk(s[3]); walk(s[5])
             else: h[s[0]] += 1
     for c in cases: walk(c["prog"])
     return dict(h)
